@@ -98,7 +98,8 @@ class _Instance:
         if isinstance(conn, Dict):
             # Special-case dictionaries of connectables into Anon Bundles
             conn = AnonymousBundle(**conn)
-        if not is_connectable(conn):
+        if isinstance(conn, type) or not is_connectable(conn):
+            # Including the connectable *types*, e.g. `NoConn` written for `NoConn()`
             raise TypeError(f"{self} attempting to connect non-connectable {conn}")
 
         # The main event: actually stick `conn` in the `conns` dict
@@ -136,7 +137,8 @@ class _Instance:
         if isinstance(conn, Dict):
             # Special-case dictionaries of connectables into Anon Bundles, as `connect` does
             conn = AnonymousBundle(**conn)
-        if not is_connectable(conn):
+        if isinstance(conn, type) or not is_connectable(conn):
+            # Including the connectable *types*, e.g. `NoConn` written for `NoConn()`
             raise TypeError(f"{self} attempting to connect non-connectable {conn}")
 
         connref = _get_connref(self, portname)
